@@ -171,7 +171,11 @@ def runSem (j : Json) : Json :=
         if nm.isBundle then
           match idxOfId c.ids src with
           | some i => some (nm.node, Bind.many [i])
-          | none => none
+          | none =>
+            -- a bundle that exists only on the wires: whatever its anchor sees
+            match idxOfId c.ids s!"{src}_{nm.name}_output_anchor" with
+            | some a => some (nm.node, Bind.many (c.circ.loud a RG))
+            | none => none
         else
         match core.nodes.getD nm.node (.const "" 0) with
         | .select .. => none         -- bound from its bundle
@@ -190,12 +194,25 @@ def runSem (j : Json) : Json :=
             ("kind", Json.str ((toString (repr (core.nodes.getD n (.const "" 0)))).take 60).toString)])).toArray),
         ("bound", nBound), ("roots", roots.length), ("nodes", core.nodes.size),
         ("proved_names", Json.arr (if ranked && failing.isEmpty then
-            (core.named.toList.filterMap (fun nm =>
-              match bindF nm.node with
-              | some (.ent _ _) => some (Json.str nm.name)
-              | some (.sum _ _) => some (Json.str nm.name)
-              | some (.many _) => some (Json.str nm.name)
-              | _ => none)).toArray else #[]))] ++
+            -- a name is proved when its node is bound and the place it is observed at reads exactly that binding
+            (obs.filterMap (fun o =>
+              if o.enable.isSome then none else
+              match bindF o.node with
+              | some (.konst _) => none
+              | some b =>
+                let sigOK := match b with
+                  | .ent _ s => o.sig == some s
+                  | .sum _ s => o.sig == some s
+                  | .many _ => o.sig.isNone
+                  | .konst _ => false
+                if !sigOK then none else
+                if !o.atAnchor then
+                  (match b with
+                   | .ent e _ => if e == o.idx then some (Json.str o.name) else none
+                   | .many [e] => if e == o.idx then some (Json.str o.name) else none
+                   | _ => none)
+                else if obsOK c.circ o.idx b then some (Json.str o.name) else none
+              | none => none)).toArray else #[]))] ++
         (if (jgetD j "dump").getBool?.toOption.getD false then
           [("dump", Json.mkObj [
             ("kinds", Json.arr (c.circ.kinds.map (fun k => Json.str (toString (repr k))))),
